@@ -176,6 +176,18 @@ def _numbers(run, P):
             for x in ast.walk(f.node):
                 if isinstance(x, ast.Constant) and isinstance(x.value, str) \
                         and _re.search(r"%[-+ 0-9.]*[dif]|\{[^}]*:[^}]*[dfg]\}", x.value):
+                    # printed only after a helper of the printer was asked about the other
+                    # operand (can it be INTEGER?): whether the answer is right is not read
+                    from .util import path_conditions
+                    st_ = next((s_ for s_ in ast.walk(f.node) if isinstance(s_, ast.stmt)
+                                and not isinstance(s_, (ast.If, ast.For, ast.While, ast.Try, ast.With,
+                                                        ast.FunctionDef))
+                                and any(y is x for y in ast.walk(s_))), None)
+                    conds = path_conditions(f.node, st_) if st_ is not None else set()
+                    asked = [t for t, pol in conds if _re.search(r"\bself\.\w+\(\s*\w+\.base\b", t)]
+                    if asked:
+                        raise AnalysisError(f"{f.qualname}: an integer literal is printed after asking "
+                                            f"{asked[0][:60]}; not decided")
                     bad.append((f, x))
                 if isinstance(x, ast.Call) and isinstance(x.func, ast.Name) and x.func.id in ("int", "float") \
                         and any(isinstance(y, ast.Attribute) and y.attr in ("exponent", "base", "index")
